@@ -436,7 +436,17 @@ def run_c18(chk: Check) -> int:
     with mp.Pool(16) as pool:
         res = pool.map(_job_pacing, [scripts[j::16] for j in range(16)])
     traces2 += [t for r in res for t in r]
-    chk.cov["executions"] = nexec + len(scripts)
+    # pacing across a close()/restart: failures, a success, close() while connected, connect_loop() again, failures again
+    rs = []
+    for k in range(1, 5):
+        for cfg in CFGS:
+            rs.append((("fail",) * k + ("ok", "fail", "fail", "ok"), (None,) * (k + 4), cfg, None, None, False))
+            rs.append((("ok",) + ("fail",) * k + ("ok", "fail", "ok"), (1,) + (None,) * (k + 3), cfg, None, None, False))
+    with mp.Pool(16) as pool:
+        res = pool.map(_job_restart, [rs[j::8] for j in range(8)])
+    traces2 += [t for r in res for t in r]
+    traces2 += restart_traces(chk, 40 if quick else 1500)
+    chk.cov["executions"] = nexec + len(scripts) + len(rs)
     judge(chk, traces2, ("C18",), "c18-manager")
     t = next(t for t in traces2 if sum(1 for e in t["events"] if e["e"] == "attempt") >= 3)
     chk.sample({"cfg": t["cfg"], "script": t["script"], "attempt_times_ms": [e["t"] for e in t["events"] if e["e"] == "attempt"],
